@@ -58,11 +58,96 @@ PIPELINES.append(Pipeline('U1_o5m_ensure_bytes_available', units=[U_eba], stubs=
                           timeout=900, replay=('c06_chunks', lambda cex, o: ['o5m']),
                           note='streams of any length up to 100000 bytes, every chunking (each get_input() returns a chunk of any length), any parser position'))
 
+
+# ---- PBF: the input queue of the PBF parser (queue mode, m_fd == -1) ---------------------------------------------------------------------------
+PBF = 'include/osmium/io/detail/pbf_input_format.hpp'
+PBFD = 'include/osmium/io/detail/pbf.hpp'
+PBF_C = '''
+struct PBFParser { vstr m_input_buffer; void* m_offset_ptr; int m_fd; bool m_want_buffered_pages_removed; };
+/* std::string::reserve: may reallocate (pointers into the string die: new epoch); size and content unchanged */
+void vstr_reserve(vstr* s, size_t n) __CPROVER_requires(VSTR_OK(s) && VSTR_INV(s)) __CPROVER_assigns(s->epoch) __CPROVER_ensures(s->epoch >= __CPROVER_old(s->epoch));
+/* the std::string handed to the blob decoder: which bytes of the stream it holds (ghost) */
+size_t ghost_out_base, ghost_out_len; bool ghost_out_set;
+void vstr_copy_prefix_out(const vstr* in, size_t pos, size_t n) __CPROVER_requires(VSTR_OK(in) && pos == 0 && n <= in->size) __CPROVER_assigns(ghost_out_base, ghost_out_len, ghost_out_set)
+  __CPROVER_ensures(ghost_out_base == in->base && ghost_out_len == n && ghost_out_set);
+bool read_exactly(int fd, char* buf, unsigned int size) __CPROVER_requires(fd >= 0) __CPROVER_assigns() __CPROVER_ensures(1);
+/* queue state between two calls of the parser */
+#define QOK(p) (VSTR_OK(&(p)->m_input_buffer) && VSTR_INV(&(p)->m_input_buffer) && (p)->m_fd == -1 && (verif_input_done == 0 || verif_input_done == 1) && ghost_pending == 0 && \\
+   ghost_read <= ghost_total && (p)->m_input_buffer.base + (p)->m_input_buffer.size == ghost_read && (!verif_input_done || ghost_read == ghost_total))
+'''
+
+
+def pbf_prelude(repo):
+    src = cx.preprocess(cx.strip_comments(open(repo + '/' + PBF).read()))
+    got = [m[1] for m in cx.extract_members(src, 'PBFParser')]
+    if got[:4] != ['m_input_buffer', 'm_offset_ptr', 'm_fd', 'm_want_buffered_pages_removed']:
+        raise ExtractError('PBFParser data members changed: %s' % got)
+    return cx.extract_const(repo, PBFD, 'max_uncompressed_blob_size') + PBF_C
+
+
+QPRE = [(r'm_input_buffer\.size\(\)', 'm_input_buffer.size')]
+U_ensure = Unit(PBF, 'ensure_available_in_input_queue', cls='PBFParser',
+                pre=QPRE + [(r'm_input_buffer\.reserve\(size\);', 'vstr_reserve(&m_input_buffer, size);'), (r'const std::string new_data\{get_input\(\)\};', 'const size_t new_data = verif_get_input();'),
+                            (r'input_done\(\)', 'verif_input_done'), (r'm_input_buffer \+= new_data;', 'vstr_append_chunk(&m_input_buffer, new_data);')])
+U_pop = Unit(PBF, 'pop_from_input_queue', cls='PBFParser', pre=[(r'm_input_buffer\.erase\(0, size\);', 'vstr_erase_front(&m_input_buffer, size);')])
+U_readq = Unit(PBF, 'read_from_input_queue_with_check', cls='PBFParser', ret='void',
+               pre=[(r'std::string\{"invalid blob size: "\} \+\s*std::to_string\(size\)', '"invalid blob size"'), (r'std::string buffer;', '/* result string: ghost */'),
+                    (r'buffer\.resize\(size\);', '/* resize */;'), (r'osmium::io::detail::read_exactly\(m_fd, &\*buffer\.begin\(\), ', 'read_exactly(m_fd, 0, '),
+                    (r'buffer\.append\(m_input_buffer, 0, size\);', 'vstr_copy_prefix_out(&m_input_buffer, 0, size);'), (r'return buffer;', 'return;')])
+ENSURE_CONTRACT = [
+    ('pre:queue state between two calls', 'requires', 'verif_exc == 0 && __CPROVER_is_fresh(self, sizeof(*self)) && __CPROVER_is_fresh(self->m_input_buffer.data, self->m_input_buffer.cap) && QOK(self)'),
+    ('post:the queue is again in a state between two calls', 'ensures', 'QOK(self)'),
+    ('post:only pbf_error, and only if the stream really has fewer bytes left than asked for', 'ensures',
+     'verif_exc == 0 || (verif_exc == EXC_pbf_error && verif_input_done && ghost_total - self->m_input_buffer.base < size)'),
+    ('post:on success that many bytes are buffered', 'ensures', 'verif_exc != 0 || self->m_input_buffer.size >= size'),
+    ('post:nothing is consumed and the buffer shows the stream at the consumed position, whatever the chunking was', 'ensures',
+     'self->m_input_buffer.base == __CPROVER_old(self->m_input_buffer.base) && VSTR_INV(&self->m_input_buffer) && self->m_input_buffer.base + self->m_input_buffer.size == ghost_read && ghost_pending == 0'),
+    ('frame', 'assigns', 'verif_exc, self->m_input_buffer.size, self->m_input_buffer.epoch, verif_input_done, ghost_read, ghost_pending, __CPROVER_object_whole(self->m_input_buffer.data)'),
+]
+ENSURE_LOOP = [['__CPROVER_assigns(verif_exc, self->m_input_buffer.size, self->m_input_buffer.epoch, verif_input_done, ghost_read, ghost_pending, __CPROVER_object_whole(self->m_input_buffer.data))',
+                '__CPROVER_loop_invariant(verif_exc == 0 && VSTR_OK(&self->m_input_buffer) && VSTR_INV(&self->m_input_buffer) && ghost_pending == 0)',
+                '__CPROVER_loop_invariant(self->m_input_buffer.base == __CPROVER_loop_entry(self->m_input_buffer.base))',
+                '__CPROVER_loop_invariant(self->m_input_buffer.base + self->m_input_buffer.size == ghost_read && ghost_read <= ghost_total)',
+                '__CPROVER_loop_invariant((verif_input_done == 0 || verif_input_done == 1) && (!verif_input_done || ghost_read == ghost_total))',
+                '__CPROVER_decreases(ghost_total - ghost_read)']]
+PIPELINES.append(Pipeline('U2_pbf_ensure_available_in_input_queue', units=[U_ensure], stubs=['vstr_epoch.h'], prelude=pbf_prelude, contracts={'PBFParser_ensure_available_in_input_queue': ENSURE_CONTRACT},
+                          loops={'PBFParser_ensure_available_in_input_queue': ENSURE_LOOP}, replace=['vstr_reserve', 'verif_get_input', 'vstr_append_chunk'], enforce='PBFParser_ensure_available_in_input_queue',
+                          harness='void harness(void) { struct PBFParser* p; size_t n; PBFParser_ensure_available_in_input_queue(p, n); __CPROVER_assert(verif_exc != 0, "canary:normal"); __CPROVER_assert(verif_exc == 0, "canary:throw"); }',
+                          canaries=['canary:normal', 'canary:throw'], timeout=900, replay=('c06_chunks', lambda cex, o: ['pbf']),
+                          note='every chunking of the stream: the refill loop appends every chunk it is given, in order, and gives up only at the end marker'))
+POP_CONTRACT = [('pre', 'requires', 'verif_exc == 0 && __CPROVER_is_fresh(self, sizeof(*self)) && __CPROVER_is_fresh(self->m_input_buffer.data, self->m_input_buffer.cap) && QOK(self) && size <= self->m_input_buffer.size'),
+                ('post:the queue is again in a state between two calls', 'ensures', 'QOK(self)'),
+                ('post:exactly size bytes are consumed from the front', 'ensures', 'self->m_input_buffer.base == __CPROVER_old(self->m_input_buffer.base) + size && self->m_input_buffer.size == __CPROVER_old(self->m_input_buffer.size) - size && VSTR_INV(&self->m_input_buffer)'),
+                ('frame', 'assigns', 'self->m_input_buffer.size, self->m_input_buffer.base, __CPROVER_object_whole(self->m_input_buffer.data)')]
+PIPELINES.append(Pipeline('U2_pbf_pop_from_input_queue', units=[U_pop], stubs=['vstr_epoch.h'], prelude=pbf_prelude, contracts={'PBFParser_pop_from_input_queue': POP_CONTRACT}, replace=['vstr_erase_front'],
+                          enforce='PBFParser_pop_from_input_queue', harness='void harness(void) { struct PBFParser* p; size_t n; PBFParser_pop_from_input_queue(p, n); __CPROVER_assert(0, "canary"); }',
+                          replay=('c06_chunks', lambda cex, o: ['pbf'])))
+def as_callee(contract):
+    """the same contract as seen by a caller: the objects exist already (is_fresh is for the enforced function; at a call site the pointers must merely be valid)"""
+    return [(l, k, re.sub(r'__CPROVER_is_fresh\(', '__CPROVER_rw_ok(', t) if k == 'requires' else t) for (l, k, t) in contract]
+
+
+PIPELINES.append(Pipeline('U2_pbf_read_from_input_queue_with_check', units=[U_ensure, U_pop, U_readq], stubs=['vstr_epoch.h'], prelude=pbf_prelude,
+                          contracts={'PBFParser_ensure_available_in_input_queue': as_callee(ENSURE_CONTRACT), 'PBFParser_pop_from_input_queue': as_callee(POP_CONTRACT), 'PBFParser_read_from_input_queue_with_check': [
+                              ('pre:queue state between two calls', 'requires', 'verif_exc == 0 && __CPROVER_is_fresh(self, sizeof(*self)) && __CPROVER_is_fresh(self->m_input_buffer.data, self->m_input_buffer.cap) && QOK(self) && !ghost_out_set'),
+                              ('post:oversized blobs and truncated streams are rejected with pbf_error; nothing else throws', 'ensures',
+                               '(verif_exc == 0 || verif_exc == EXC_pbf_error) && (size <= max_uncompressed_blob_size || verif_exc != 0)'),
+                              ('post:the string handed on is exactly the next size bytes of the stream and exactly those are consumed, whatever the chunking was', 'ensures',
+                               'verif_exc != 0 || (ghost_out_set && ghost_out_base == __CPROVER_old(self->m_input_buffer.base) && ghost_out_len == size && self->m_input_buffer.base == __CPROVER_old(self->m_input_buffer.base) + size && VSTR_INV(&self->m_input_buffer))'),
+                              ('frame', 'assigns', 'verif_exc, self->m_input_buffer.size, self->m_input_buffer.base, self->m_input_buffer.epoch, verif_input_done, ghost_read, ghost_pending, ghost_out_base, ghost_out_len, ghost_out_set, __CPROVER_object_whole(self->m_input_buffer.data)')]},
+                          replace=['PBFParser_ensure_available_in_input_queue', 'PBFParser_pop_from_input_queue', 'vstr_copy_prefix_out', 'read_exactly'],
+                          maythrow={'PBFParser_ensure_available_in_input_queue': True}, enforce='PBFParser_read_from_input_queue_with_check',
+                          harness='void harness(void) { struct PBFParser* p; size_t n; PBFParser_read_from_input_queue_with_check(p, n); __CPROVER_assert(verif_exc != 0, "canary:normal"); __CPROVER_assert(verif_exc == 0, "canary:throw"); }',
+                          canaries=['canary:normal', 'canary:throw'], replay=('c06_chunks', lambda cex, o: ['pbf']),
+                          note='queue mode (m_fd == -1); the file-descriptor branch only hands the size to read_exactly'))
+
 TRUSTED = ['std::string erase/append/data semantics (stubs/vstr_epoch.h)', 'get_input()/input_done() hand over the stream in arbitrary chunks followed by one end marker (queue protocol)']
 ASSUMPTIONS = ['input streams of at most 100000 bytes (object-size bound; the loop contract makes the proof independent of it)']
-NOT_DECIDED = ['XML (carry-over lives inside expat)', 'OPL line splitting', 'PBF input queue', 'decompressor to parser hand-off (threads)', 'callers that ignore the return value of ensure_bytes_available']
+NOT_DECIDED = ['XML (carry-over lives inside expat)', 'OPL line splitting', 'the PBF blob header size/type decoding between the queue operations', 'decompressor to parser hand-off (threads)', 'callers that ignore the return value of ensure_bytes_available']
 LEVEL_TEXT = ('Proof for the o5m carry-over: O5mParser::ensure_bytes_available is verified, for every stream up to 100000 bytes, every segmentation into chunks and every parser position, '
               'to leave valid window pointers on every return, to show the stream at the logically consumed position regardless of the chunking, to consume nothing, and to report "not enough bytes" '
-              'only when the stream really ends (refill loop closed by a loop contract with termination).')
-LEVEL_NOTE = ('Trusted: CBMC, extraction rules, the std::string model with ghost epochs, the get_input/input_done protocol. Only the o5m refill is decided; XML (expat), OPL line splitting, the PBF queue and '
+              'only when the stream really ends (refill loop closed by a loop contract with termination). Proof for the PBF input queue (queue mode): ensure_available_in_input_queue appends every chunk it is given, in '
+              'order, consumes nothing and gives up (pbf_error) only when the stream really has fewer bytes left; pop_from_input_queue consumes exactly the requested bytes; read_from_input_queue_with_check hands on '
+              'exactly the next size bytes of the stream and consumes exactly those, for every chunking.')
+LEVEL_NOTE = ('Trusted: CBMC, extraction rules, the std::string model with ghost epochs, the get_input/input_done protocol. The o5m refill and the PBF input queue are decided; XML (expat), OPL line splitting and '
               'the thread hand-off are not.')
